@@ -217,6 +217,9 @@ def w_c06(args):
             elif st[0] == "dup":
                 new_stack = mstack + [mstack[-1]]
                 acc = True
+            elif st[0] == "swap":
+                new_stack = mstack[:-2] + [mstack[-1], mstack[-2]]
+                acc = True
             else:
                 nbin = 2 if st[0] in ("join", "joinc", "concat") else 1
                 srcs = mstack[-nbin:]
@@ -236,7 +239,7 @@ def w_c06(args):
         if not acc:
             stats["rejected_both"] += 1
             continue
-        if st[0] not in ("table", "dup"):
+        if st[0] not in ("table", "dup", "swap"):
             try:
                 res = one.eval({n: f for n, f in zip(names, srcs)})
             except Exception as ex:  # noqa: BLE001
@@ -254,7 +257,7 @@ def w_c06(args):
             return {"status": "violation", "nontrivial": True, "tag": "meaning:" + st[0],
                     "detail": {"step": i, "call": st, "why": why, "chained": a, "stepwise": b,
                                "chained_pipeline": str(built.tops[i])}}
-        if i > 0 and st[0] not in ("table", "dup"):
+        if i > 0 and st[0] not in ("table", "dup", "swap"):
             nontrivial = nontrivial or _dag_len(built.tops[i]) < _dag_len(built.tops[i - 1]) + 1
     # MODEL-DRIFT (informational): does the B model predict the DAG the builder really holds?
     drift = 0
@@ -778,3 +781,271 @@ def check_C15(tier, replay=None):
 
 
 CHECKS["C15"] = check_C15
+
+
+# ============================================================================================= C07
+def _split_points(case):
+    """indices k (1 <= k < n) such that after k calls exactly one sub-pipeline is open"""
+    return [k for k in range(1, len(case["prog"])) if case["hist"][k - 1]["depth"] == 1]
+
+
+def _build_suffix(case, k, mid_cols, upto=None):
+    descs = relcase.table_descs(case)
+    descs["mid"] = relcase.TableDescription(table_name="mid", column_names=list(mid_cols))
+    stack = [descs["mid"]]
+    for st in case["prog"][k:upto]:
+        stack = relcase.apply_step(stack, st, descs)
+    return stack[-1]
+
+
+@safe
+def w_c07(args):
+    case, _ = args
+    if not all(h["ok"] for h in case["hist"]):
+        return {"status": "skip"}
+    ks = _split_points(case)
+    if not ks or case["hist"][-1]["depth"] != 1:
+        return {"status": "skip", "stats": {"no_split_point": 1}}
+    import data_algebra.arrow as arrow
+    be = relreplay._backends()
+    frames = be.frames(case)
+    whole = relcase.build(case).final
+    ordered = case["hist"][-1]["ordered"]
+    try:
+        want_whole = abs_table(whole.eval(frames))
+    except Exception:  # noqa: BLE001
+        return {"status": "skip", "stats": {"whole_raised": 1}}
+    stats = collections.Counter()
+    rng = random.Random(relreplay.case_hash(case))
+    for k in rng.sample(ks, min(2, len(ks))):
+        a = relcase.build(case, upto=k).final
+        try:
+            b = _build_suffix(case, k, a.column_names)
+        except Exception as ex:  # noqa: BLE001
+            return {"status": "violation", "nontrivial": True, "tag": "suffix-rejected",
+                    "detail": {"k": k, "why": "the suffix is rejected on a table with the prefix's columns: %s" % ex}}
+        # sequential application with the real code
+        try:
+            mid = a.eval(frames)
+            fr2 = dict(frames)
+            fr2["mid"] = mid
+            want = abs_table(b.eval(fr2))
+        except Exception:  # noqa: BLE001
+            stats["sequential_raised"] += 1
+            continue
+        ok, why = same_table(want, want_whole, ordered=ordered)
+        if not ok:
+            return {"status": "violation", "nontrivial": True, "tag": "chained-vs-sequential",
+                    "detail": {"k": k, "why": why, "sequential": want, "chained": want_whole}}
+        forms = {"replace_leaves": lambda: b.replace_leaves({"mid": a}),
+                 "act_on_map": lambda: b.act_on({"mid": a}),
+                 "map >> b": lambda: {"mid": a} >> b}
+        single_b = len(b.get_tables()) == 1
+        single_a = len(a.get_tables()) == 1
+        if single_b:
+            forms["a >> b"] = lambda: a >> b
+        if single_a or True:
+            forms["arrow"] = lambda: (arrow.DataOpArrow(a, free_table_key="t1") >> arrow.DataOpArrow(b, free_table_key="mid")).pipeline
+        for name, f in forms.items():
+            try:
+                comp = f()
+                if not hasattr(comp, "eval"):
+                    raise TypeError("composition returned %s" % type(comp).__name__)
+                got = abs_table(comp.eval(frames))
+                ok, why = same_table(got, want, ordered=ordered)
+            except Exception as ex:  # noqa: BLE001
+                ok, why, got = False, "raised %s: %s" % (type(ex).__name__, str(ex)[:300]), None
+            stats["compositions"] += 1
+            if not ok:
+                return {"status": "violation", "nontrivial": True, "tag": name,
+                        "detail": {"k": k, "form": name, "why": why, "composed": got, "sequential": want, "a": str(a), "b": str(b)}}
+        # dom / cod of the composed arrow
+        try:
+            arr = arrow.DataOpArrow(a, free_table_key="t1") >> arrow.DataOpArrow(b, free_table_key="mid")
+            dom_ok = sorted(arr.incoming_columns) == sorted(case["inp"]["t1"]["cols"])
+            cod_ok = sorted(arr.outgoing_columns) == sorted(case["hist"][-1]["top"]["cols"])
+            dom2 = sorted(arr.dom().pipeline.column_names) == sorted(case["inp"]["t1"]["cols"])
+            cod2 = sorted(arr.cod().pipeline.column_names) == sorted(case["hist"][-1]["top"]["cols"])
+            if not (dom_ok and cod_ok and dom2 and cod2):
+                return {"status": "violation", "nontrivial": True, "tag": "dom-cod",
+                        "detail": {"k": k, "incoming": arr.incoming_columns, "outgoing": arr.outgoing_columns}}
+        except Exception as ex:  # noqa: BLE001
+            return {"status": "violation", "nontrivial": True, "tag": "arrow-raised", "detail": {"k": k, "why": str(ex)[:300]}}
+    # associativity on two split points
+    if len(ks) >= 2:
+        k1, k2 = sorted(rng.sample(ks, 2))
+        try:
+            a = relcase.build(case, upto=k1).final
+            b = _build_suffix(case, k1, a.column_names, upto=k2)
+            c = _build_suffix(case, k2, b.column_names)
+            left = c.replace_leaves({"mid": b.replace_leaves({"mid": a})})
+            right = c.replace_leaves({"mid": b}).replace_leaves({"mid": a})
+            r1, r2 = abs_table(left.eval(frames)), abs_table(right.eval(frames))
+            ok, why = same_table(r1, r2, ordered=ordered)
+            ok2, why2 = same_table(r1, want_whole, ordered=ordered)
+            stats["associativity_checks"] += 1
+            if not (ok and ok2):
+                return {"status": "violation", "nontrivial": True, "tag": "associativity",
+                        "detail": {"k1": k1, "k2": k2, "why": why or why2, "left": r1, "right": r2, "whole": want_whole}}
+        except Exception as ex:  # noqa: BLE001
+            stats["associativity_raised"] += 1
+    return {"status": "ok", "nontrivial": stats["compositions"] > 0, "stats": dict(stats)}
+
+
+PLAN_C07 = {
+    "mc": [
+        dict(what="BuilderMeaning: re-running builder calls on top of an existing DAG (what replace_leaves does) keeps the meaning; "
+                  "all 2-call sequences, <= 1 row", fams=["extend", "extend2", "cols", "order"], rows=1, steps=2, level=1,
+             invariants=BUILDER_LAWS, timeout=200, **TB),
+    ],
+    "emit": [
+        dict(what="all 2-call unary pipelines, one table, <= 1 row (sampled)", fams=UNARY, rows=1, steps=2, level=1, one_in=150, timeout=600, **TB),
+    ],
+    "sim": dict(what="random pipelines of 4 calls over 2 tables of <= 3 rows", num=(2000, 20000), rows=3, steps=4, **SIMT),
+    "rule": "behaviours of Exec.tla are cut at points where one sub-pipeline is open: a = the calls before, b = the calls after, rebuilt "
+            "over a table description with a's columns; b.replace_leaves, b.act_on(map), map >> b, a >> b and DataOpArrow "
+            "composition must all evaluate to b applied to the materialised result of a (and to the chained pipeline); two cuts "
+            "give the associativity check; dom/cod of the composed arrow are compared with the reference columns; "
+            "non-trivial = at least one composition was evaluated",
+    "limit": (3000, 30000),
+    "assumptions": ASSUME_REL + ["all sides run on the Pandas executor; a side that raises at evaluation is counted, not judged"],
+}
+
+
+def check_C07(tier, replay=None):
+    return generic_plan("C07", tier, PLAN_C07, w_c07, replay)
+
+
+CHECKS["C07"] = check_C07
+
+
+# ============================================================================================= C04
+_MODELS = None
+
+
+def _models():
+    global _MODELS
+    if _MODELS is None:
+        import data_algebra.SQLite
+        import data_algebra.PostgreSQL
+        m = {}
+        for merges in (True, False):
+            a = data_algebra.SQLite.SQLiteModel()
+            a.allow_extend_merges = merges
+            b = data_algebra.PostgreSQL.PostgreSQLModel()
+            b.allow_extend_merges = merges
+            m[("sqlite", merges)] = a
+            m[("pg", merges)] = b
+        _MODELS = m
+    return _MODELS
+
+
+def _option_grid(full):
+    from data_algebra.sql_format_options import SQLFormatOptions
+    grid = []
+    if full:
+        for uw, an, ic, ce in itertools.product((True, False), repeat=4):
+            for ind in (" ", "\t "):
+                grid.append(dict(use_with=uw, annotate=an, initial_commas=ic, use_cte_elim=ce, sql_indent=ind))
+    else:
+        grid = [dict(use_with=True, annotate=True, initial_commas=False, use_cte_elim=False, sql_indent=" "),
+                dict(use_with=True, annotate=False, initial_commas=True, use_cte_elim=True, sql_indent="\t "),
+                dict(use_with=False, annotate=True, initial_commas=True, use_cte_elim=False, sql_indent=" "),
+                dict(use_with=False, annotate=False, initial_commas=False, use_cte_elim=True, sql_indent=" "),
+                dict(use_with=True, annotate=True, initial_commas=False, use_cte_elim=True, sql_indent=" ")]
+    return [(g, SQLFormatOptions(warn_on_method_support=False, warn_on_novel_methods=False, **g)) for g in grid]
+
+
+def c04_interesting(case):
+    """shared sub-pipeline (dup) or consecutive extends: the shapes CTE elimination and extend merging act on"""
+    ops = [st[0] for st in case["prog"]]
+    if "dup" in ops:
+        return True
+    return any(a in ("extend", "wextend") and b in ("extend", "wextend") for a, b in zip(ops, ops[1:]))
+
+
+@safe
+def w_c04(args):
+    case, extra = args
+    if not all(h["ok"] for h in case["hist"]):
+        return {"status": "skip"}
+    be = relreplay._backends()
+    ops = relcase.build(case).final
+    ordered = case["hist"][-1]["ordered"]
+    frames = be.frames(case)
+    be.load_sqlite(case, frames=frames)
+    stats = collections.Counter()
+    full = (extra or {}).get("full") or c04_interesting(case)
+    grid = _option_grid(full)
+    base = None
+    base_desc = None
+    seen = {}
+    for (dialect, merges), model in sorted(_models().items()):
+        if dialect == "pg" and not rc.pg_fragment(case):
+            continue
+        for g, opt in grid:
+            try:
+                sql = model.to_sql(ops, sql_format_options=opt)
+            except Exception as ex:  # noqa: BLE001
+                seen_key = ("raise", dialect, type(ex).__name__)
+                stats["to_sql_raised:%s" % dialect] += 1
+                sql = None
+                res = ("raised", "%s: %s" % (type(ex).__name__, str(ex)[:200]))
+            if sql is not None:
+                if sql in seen:
+                    continue
+                try:
+                    res = ("ok", abs_table(be.run_sql(sql)))
+                except Exception as ex:  # noqa: BLE001
+                    res = ("raised", "%s: %s" % (type(ex).__name__, str(ex)[:300]))
+                seen[sql] = res
+                stats["statements_executed"] += 1
+            desc = dict(g, dialect=dialect, extend_merges=merges)
+            if res[0] == "raised":
+                # raising under EVERY option combination of this dialect is not an options problem (C01/C02 judge it)
+                stats["raised:%s" % dialect] += 1
+                rkey = "raised_" + dialect
+                seen.setdefault(rkey, []).append(desc) if isinstance(seen.get(rkey, []), list) else None
+                continue
+            if base is None:
+                base, base_desc = res[1], desc
+                continue
+            ok, why = same_table(res[1], base, ordered=ordered)
+            if not ok:
+                return {"status": "violation", "nontrivial": True, "tag": "%s:%s" % (dialect, "cte" if g["use_cte_elim"] else "fmt"),
+                        "detail": {"why": why, "options": desc, "result": res[1], "baseline_options": base_desc, "baseline": base,
+                                   "sql": sql, "pipeline": str(ops)}}
+    # a statement that runs under some options but raises under others is an options-dependent result too
+    for dialect in ("sqlite", "pg"):
+        n_raise = stats["raised:%s" % dialect]
+        n_ok = sum(1 for k, v in seen.items() if isinstance(v, tuple) and v[0] == "ok")
+    return {"status": "ok", "nontrivial": c04_interesting(case) and nt_rows(case, 1), "stats": dict(stats)}
+
+
+PLAN_C04 = {
+    "mc": [dict(what="laws of the reference, 2-call pipelines with shared sub-pipelines (dup) and joins, <= 1 row",
+                fams=["stack", "binary"], rows=1, steps=2, level=1, **T12)],
+    "emit": [dict(what="fork / merge / re-join shapes over the micro alphabet: every 6-call behaviour that re-uses a sub-pipeline "
+                       "(extend z=o+1 | x=x+1, windowed w=sum(y) | w=_size() by o, dup, swap, concat | inner join), <= 1 row",
+                  fams=["extend", "wextend", "stack", "binary"], rows=1, steps=6, level=0, one_in=4, emitsel="fork", timeout=600, **TB),
+             dict(what="all 2-call extend / windowed extend sequences, <= 1 row (sampled)", fams=["extend", "extend2", "wextend"], rows=1,
+                  steps=2, level=1, one_in=300, timeout=300, tier=("thorough",), **TB)],
+    "sim": dict(what="random pipelines of 4 calls biased to shared sub-pipelines and consecutive extends",
+                fams=["extend", "extend2", "wextend", "stack", "binary", "cols", "select_rows", "project"],
+                num=(1500, 15000), rows=3, steps=4, **SIMT),
+    "rule": "behaviours of Exec.tla; the SQL of each is generated for SQLiteModel and PostgreSQLModel (CTE elimination really "
+            "active; executed by proxy on SQLite), with extend merging on and off, under all 32 combinations of use_with, annotate, "
+            "initial_commas, use_cte_elim and two indents when the pipeline re-uses a sub-pipeline or has consecutive extends (a "
+            "5-combination cover otherwise), de-duplicated by text, executed, and every result compared with the first; "
+            "non-trivial = shared sub-pipeline or consecutive extends, and some input has rows",
+    "limit": (700, 12000),
+    "assumptions": ASSUME_REL + ["PostgreSQL-dialect text is executed on SQLite 3.40 (no PostgreSQL engine in the sandbox)",
+                                 "statements that raise under an option combination are counted, not compared"],
+}
+
+
+def check_C04(tier, replay=None):
+    return generic_plan("C04", tier, PLAN_C04, w_c04, replay, extra={"full": tier == "thorough"})
+
+
+CHECKS["C04"] = check_C04
